@@ -249,13 +249,15 @@ def run(ctx):
     ctx.check("R-HANDLERS-BEFORE-OUTCOME", "onException is called only by the exception recorder", gue, callers == [f"{RUNTEST}:_got_user_exception"],
               f"onException is called from {callers}", construct=f"{RUNTEST}::onException-callers")
     rpr = own_method(ctx, RUNTEST, "RunTest", "_run_prepared_result")
-    g = cfg_of(ctx, rpr)
-    lv = live_nodes(g)
-    core = nodes_calling(g, lambda c: dotted(c.func) == "self._run_core", lv)
-    disp = nodes_calling(g, lambda c: dotted(c.func) in ("handler", "self.last_resort"), lv)
-    ok = len(core) == 1 and bool(disp) and all(g.dominated_by(d, set(core)) for d in disp) and not (set(g.reach(g.after(disp[0]))) & set(core))
-    ctx.check("R-HANDLERS-BEFORE-OUTCOME", "the outcome is dispatched only after _run_core returned", rpr, ok,
-              "the outcome handler can run before/while stages (and their onException handlers) run", construct=f"{RUNTEST}:RunTest._run_prepared_result::dispatch-after-core")
+    # decided on the abstract run: no user stage and no onException call happens once an outcome was dispatched
+    from . import runmodel
+    rt_cls = classes.get(RUNTEST, "RunTest")
+    run_res, _ = runmodel.analyse_run(ctx, rt_cls)
+    late = [r for r in run_res if r.state.get("ev.onexc_after_outcome", 0) or r.state.get("ev.user_after_outcome", 0)]
+    n_out = sum(1 for r in run_res if r.state.get("ev.outcomes", 0) >= 1)
+    ctx.check("R-HANDLERS-BEFORE-OUTCOME", "the outcome is dispatched only after every stage (and its onException handlers) has run", rpr, not late and n_out >= 1,
+              "a stage or an addOnException handler can run after the outcome handler was called: what it attaches is missing from the reported details",
+              path=runmodel.fmt_log(late[0].state) if late else None, examined=len(run_res), construct=f"{RUNTEST}:RunTest._run_prepared_result::dispatch-after-core")
 
     # ------------------------------------------------------------------ eager snapshot
     from .common import check_copy_content_snapshot
